@@ -53,6 +53,8 @@ MANIFEST = dict(
                   kind_free_text="see C13")],
 )
 
+MANIFEST["text"] += ' Fourth session: a parent cycle brought into the RUNNING server by a save (req:s<k>).'
+
 ASSUMPTIONS = [
     "single-threaded part: requests are issued one after the other (as the property's quantifier says: every request kind on every file, in both analysis orders, twice); the concurrent part (mode conc) is a stress test plus model-level theorems, see the PARTIAL note",
     "std::sync::Mutex is not re-entrant (a second lock() by the holder never returns) and is fair enough for a blocked thread to proceed once the holder releases; a request that does not answer within 10 s is counted as hanging",
